@@ -101,3 +101,52 @@ def compare_tls(an, ends, conn, server_port=None):
 
 def digest(b):
     return hashlib.sha256(b or b"").hexdigest()[:12]
+
+
+# ---- QUIC ----------------------------------------------------------------------------------------
+from .model import quic as _quic  # noqa
+
+
+def quic_conn(scn, seed, key=()):
+    rng = rng_for(seed, "quic", tuple(sorted((k, str(v)) for k, v in scn.items())), key)
+    return _quic.Conn(scn, rng)
+
+
+def quic_packets(conn, conn_id=0):
+    return cap.udp_packets(conn_id, [(g.dir, g.data, g.tag) for g in conn.dgrams])
+
+
+def udp_export(an, ends, server_port=None):
+    """[(dir, payload, ts)] of the non-empty datagrams exported for this connection"""
+    out = []
+    for k, lst in an["udp"].items():
+        for ts, src, dst, payload, fr in lst:
+            if src == ends.client.key() and dst[0] == ends.server.ip and (server_port is None or dst[1] == server_port):
+                d = "c"
+            elif dst == ends.client.key() and src[0] == ends.server.ip and (server_port is None or src[1] == server_port):
+                d = "s"
+            else:
+                continue
+            if payload:
+                out.append((d, bytes(payload), ts))
+    return out
+
+
+def compare_quic(an, ends, conn, server_port=None):
+    got = [(d, p) for d, p, _ in udp_export(an, ends, server_port)]
+    want = conn.truth()
+    if got == want:
+        return None
+    if not got:
+        return "nothing_exported", f"expected {len(want)} datagrams"
+    if len(got) != len(want):
+        kind = "datagram_count"
+        if got == want[:len(got)]:
+            kind = "datagrams_missing_at_end"
+        return kind, f"exported {len(got)} non-empty datagrams, {len(want)} carried stream data: " \
+                     f"got {[(d, len(p)) for d, p in got][:12]} want {[(d, len(p)) for d, p in want][:12]}"
+    for i, (g, w) in enumerate(zip(got, want)):
+        if g != w:
+            return ("datagram_direction" if g[1] == w[1] else "datagram_payload"), \
+                   f"datagram {i}: got ({g[0]},{len(g[1])}B) want ({w[0]},{len(w[1])}B)"
+    return "mismatch", ""
